@@ -22,7 +22,8 @@ Steps == {st \in History \cup EndSteps : Enabled(st)}
 Init == InitWith(Cfg, Pre)
 Next == NextWith(Steps)
 Spec == Init /\ [][Next]_vars
-Depth == 5
+Depth == 7
+DepthT == 9
 Constraint == Len(hist) <= Len(Pre) + Depth
 ASSUME PrintT(<<"CFG", ToJson(CfgJson(Cfg))>>)
 =============================================================================
